@@ -487,6 +487,13 @@ func ApplyOverlapToChunks(chunks []*Chunk, config OverlapConfig) []*ChunkWithOve
 	generator := NewOverlapGeneratorWithConfig(config)
 	result := make([]*ChunkWithOverlap, len(chunks))
 
+	// The chunk texts are rewritten below; overlap is taken from each chunk's
+	// own content, not from content it already inherited from its predecessor.
+	ownTexts := make([]string, len(chunks))
+	for i, chunk := range chunks {
+		ownTexts[i] = chunk.Text
+	}
+
 	for i, chunk := range chunks {
 		result[i] = &ChunkWithOverlap{
 			Chunk: chunk,
@@ -494,8 +501,7 @@ func ApplyOverlapToChunks(chunks []*Chunk, config OverlapConfig) []*ChunkWithOve
 
 		if i > 0 && config.Strategy != OverlapNone {
 			// Generate overlap from previous chunk
-			prevChunk := chunks[i-1]
-			overlap := generator.GenerateOverlap(prevChunk.Text)
+			overlap := generator.GenerateOverlap(ownTexts[i-1])
 
 			if overlap.Text != "" {
 				result[i].OverlapPrefix = overlap.Text
